@@ -371,9 +371,9 @@ def op_to_wire(op):
         return ["$drop", "$" + op[1]]
     if k == "immut":
         return ["$immut", "$" + op[1], "$" + op[2]]
-    if k in ("good", "iszero", "uniform"):
+    if k in ("good", "iszero", "uniform", "liveok", "inv", "singlepath", "hastmpl", "nobins"):
         return ["$" + k, "$" + op[1]]
-    if k in ("samebase", "same", "compat"):
+    if k in ("samebase", "same", "compat", "eqcontent"):
         return ["$" + k, "$" + op[1], "$" + op[2]]
     raise ValueError(op)
 
